@@ -47,7 +47,7 @@ func init() {
 		Run:         func(c *eng.Ctx) { ruleForgetGuards(c) },
 		Controls: []Control{
 			{Name: "remove-last-snapshot-of-group", File: "cmd/restic/cmd_forget.go",
-				Old: "			if !policy.Empty() && len(keep) == 0 {\n				return fmt.Errorf(\"refusing to delete last snapshot of snapshot group \\\"%v\\\"\", key.String())\n			}\n", New: "", Rule: "forget-guards"},
+				Old: "			if !policy.Empty() && len(keep) == 0 {\n				return fmt.Errorf(\"refusing to delete last snapshot of snapshot group \\\"%v\\\"\", key.String())\n			}\n", New: "			if !policy.Empty() && len(keep) == 0 {\n				printer.E(\"%v\", fmt.Errorf(\"removing last snapshot of group %v\", key.String()))\n			}\n", Rule: "forget-guards"},
 			{Name: "dry-run-deletes", File: "cmd/restic/cmd_forget.go",
 				Old: "		if !opts.DryRun {\n			bar := printer.NewCounter(\"files deleted\")", New: "		if !opts.DryRun || len(args) > 0 {\n			bar := printer.NewCounter(\"files deleted\")", Rule: "forget-guards"},
 			{Name: "policy-mode-removes-kept-too", File: "cmd/restic/cmd_forget.go",
